@@ -439,6 +439,8 @@ def pytask_collect_node(  # noqa: C901, PLR0912
             _raise_error_if_casing_of_path_is_wrong(
                 node.root_dir, session.config["check_casing_of_paths"]
             )
+        elif not isinstance(node.root_dir, UPath):
+            node.root_dir = Path(os.path.normpath(node.root_dir))
 
         if (
             not node.name
@@ -467,6 +469,8 @@ def pytask_collect_node(  # noqa: C901, PLR0912
         _raise_error_if_casing_of_path_is_wrong(
             node.path, session.config["check_casing_of_paths"]
         )
+    elif isinstance(node, PPathNode) and not isinstance(node.path, UPath):
+        node.path = Path(os.path.normpath(node.path))
 
     if isinstance(node, PPathNode) and (
         not node.name or node.name == node.path.as_posix()
